@@ -1,0 +1,55 @@
+// Licensed to the Apache Software Foundation (ASF) under one
+// or more contributor license agreements.  See the NOTICE file
+// distributed with this work for additional information
+// regarding copyright ownership.  The ASF licenses this file
+// to you under the Apache License, Version 2.0 (the
+// "License"); you may not use this file except in compliance
+// with the License.  You may obtain a copy of the License at
+//
+//   http://www.apache.org/licenses/LICENSE-2.0
+//
+// Unless required by applicable law or agreed to in writing,
+// software distributed under the License is distributed on an
+// "AS IS" BASIS, WITHOUT WARRANTIES OR CONDITIONS OF ANY
+// KIND, either express or implied.  See the License for the
+// specific language governing permissions and limitations
+// under the License.
+
+//! Verification hooks (cargo feature `verif-hooks`, off by default).
+//!
+//! Re-exports of crate-private hashing entry points so that an external conformance harness
+//! can drive them with multi-part writes and observe the buffering state.
+
+use std::hash::Hasher;
+
+use crate::hash::MurmurHash3X64128;
+use crate::hash::XxHash64;
+
+/// Result of a multi-part MurmurHash3-x64-128 run: the digest and, after each write, the pair
+/// (buffered bytes, bytes absorbed as full blocks).
+pub fn murmur3_x64_128(seed: u64, parts: &[&[u8]]) -> ((u64, u64), Vec<(usize, u64)>) {
+    let mut hasher = MurmurHash3X64128::with_seed(seed);
+    let mut states = Vec::with_capacity(parts.len());
+    for part in parts {
+        hasher.write(part);
+        states.push(hasher.verif_buf_state());
+    }
+    (hasher.finish128(), states)
+}
+
+/// Result of a multi-part XXH64 run: the digest and, after each write, the pair
+/// (buffered bytes, total bytes written).
+pub fn xxhash64(seed: u64, parts: &[&[u8]]) -> (u64, Vec<(usize, u64)>) {
+    let mut hasher = XxHash64::with_seed(seed);
+    let mut states = Vec::with_capacity(parts.len());
+    for part in parts {
+        hasher.write(part);
+        states.push(hasher.verif_buf_state());
+    }
+    (hasher.finish64(), states)
+}
+
+/// The 16-bit seed hash the sketches store in their images.
+pub fn seed_hash(seed: u64) -> u16 {
+    crate::hash::compute_seed_hash(seed)
+}
